@@ -275,7 +275,8 @@ def judge_mode(res, scratch, mode, entries):
 
 
 def run_shard(spec, tier, scratch):
-    res = fw.ShardResult()
+    res = fw.ShardResult().begin(spec, tier)
+    res.next_call()
     entries = build_records(spec["mode"], tier, spec)
     judge_mode(res, scratch, spec["mode"], entries)
     if spec["shard"] == 0 and entries:
